@@ -9,7 +9,7 @@ theorem i3_send {s s' : State} {a : Ag} (h1 : I1 s) (h2 : I2 s) (hi : I3 s) (h :
   have hTk : s.taker = none ∨ ∃ b, s.taker = some b := by cases s.taker <;> simp
   have hWr : s.writer = none ∨ ∃ j, s.writer = some j := by cases s.writer <;> simp
   have hMv : s.mover = none ∨ ∃ j, s.mover = some j := by cases s.mover <;> simp
-  obtain ⟨kSend, bodyK, freshM, freshP, freshG, goneM, finR, finS, finU, freedR, freedS, freedF, ciCl, rSide, rdropCl, recvOpen, dcST⟩ := h1
+  obtain ⟨kSend, bodyK, freshM, freshP, freshG, goneM, finR, finS, finU, freedR, freedS, freedF, ciCl, rdropCl, recvOpen, dcST⟩ := h1
   obtain ⟨wrS, wrU, stW⟩ := h2
   obtain ⟨tkS, tkU, tkSt, tkSl, dead1, dead2, dead3, slotS, slotU, swapSl, casSent, freedSl⟩ := hi
   os_split h [stepSend]
@@ -20,7 +20,7 @@ theorem i3_wk {s s' : State} {a : Ag} (h1 : I1 s) (h2 : I2 s) (hi : I3 s) (h : s
   have hTk : s.taker = none ∨ ∃ b, s.taker = some b := by cases s.taker <;> simp
   have hWr : s.writer = none ∨ ∃ j, s.writer = some j := by cases s.writer <;> simp
   have hMv : s.mover = none ∨ ∃ j, s.mover = some j := by cases s.mover <;> simp
-  obtain ⟨kSend, bodyK, freshM, freshP, freshG, goneM, finR, finS, finU, freedR, freedS, freedF, ciCl, rSide, rdropCl, recvOpen, dcST⟩ := h1
+  obtain ⟨kSend, bodyK, freshM, freshP, freshG, goneM, finR, finS, finU, freedR, freedS, freedF, ciCl, rdropCl, recvOpen, dcST⟩ := h1
   obtain ⟨wrS, wrU, stW⟩ := h2
   obtain ⟨tkS, tkU, tkSt, tkSl, dead1, dead2, dead3, slotS, slotU, swapSl, casSent, freedSl⟩ := hi
   os_split h [stepWk]
@@ -31,7 +31,7 @@ theorem i3_cl {s s' : State} {a : Ag} (h1 : I1 s) (h2 : I2 s) (hi : I3 s) (h : s
   have hTk : s.taker = none ∨ ∃ b, s.taker = some b := by cases s.taker <;> simp
   have hWr : s.writer = none ∨ ∃ j, s.writer = some j := by cases s.writer <;> simp
   have hMv : s.mover = none ∨ ∃ j, s.mover = some j := by cases s.mover <;> simp
-  obtain ⟨kSend, bodyK, freshM, freshP, freshG, goneM, finR, finS, finU, freedR, freedS, freedF, ciCl, rSide, rdropCl, recvOpen, dcST⟩ := h1
+  obtain ⟨kSend, bodyK, freshM, freshP, freshG, goneM, finR, finS, finU, freedR, freedS, freedF, ciCl, rdropCl, recvOpen, dcST⟩ := h1
   obtain ⟨wrS, wrU, stW⟩ := h2
   obtain ⟨tkS, tkU, tkSt, tkSl, dead1, dead2, dead3, slotS, slotU, swapSl, casSent, freedSl⟩ := hi
   os_split h [stepCl]
@@ -42,7 +42,7 @@ theorem i3_x {s s' : State} {a : Ag} (h1 : I1 s) (h2 : I2 s) (hi : I3 s) (h : st
   have hTk : s.taker = none ∨ ∃ b, s.taker = some b := by cases s.taker <;> simp
   have hWr : s.writer = none ∨ ∃ j, s.writer = some j := by cases s.writer <;> simp
   have hMv : s.mover = none ∨ ∃ j, s.mover = some j := by cases s.mover <;> simp
-  obtain ⟨kSend, bodyK, freshM, freshP, freshG, goneM, finR, finS, finU, freedR, freedS, freedF, ciCl, rSide, rdropCl, recvOpen, dcST⟩ := h1
+  obtain ⟨kSend, bodyK, freshM, freshP, freshG, goneM, finR, finS, finU, freedR, freedS, freedF, ciCl, rdropCl, recvOpen, dcST⟩ := h1
   obtain ⟨wrS, wrU, stW⟩ := h2
   obtain ⟨tkS, tkU, tkSt, tkSl, dead1, dead2, dead3, slotS, slotU, swapSl, casSent, freedSl⟩ := hi
   os_split h [stepX]
@@ -53,7 +53,7 @@ theorem i3_pb {s s' : State} {a : Ag} (h1 : I1 s) (h2 : I2 s) (hi : I3 s) (h : s
   have hTk : s.taker = none ∨ ∃ b, s.taker = some b := by cases s.taker <;> simp
   have hWr : s.writer = none ∨ ∃ j, s.writer = some j := by cases s.writer <;> simp
   have hMv : s.mover = none ∨ ∃ j, s.mover = some j := by cases s.mover <;> simp
-  obtain ⟨kSend, bodyK, freshM, freshP, freshG, goneM, finR, finS, finU, freedR, freedS, freedF, ciCl, rSide, rdropCl, recvOpen, dcST⟩ := h1
+  obtain ⟨kSend, bodyK, freshM, freshP, freshG, goneM, finR, finS, finU, freedR, freedS, freedF, ciCl, rdropCl, recvOpen, dcST⟩ := h1
   obtain ⟨wrS, wrU, stW⟩ := h2
   obtain ⟨tkS, tkU, tkSt, tkSl, dead1, dead2, dead3, slotS, slotU, swapSl, casSent, freedSl⟩ := hi
   os_split h [stepPb]
@@ -64,7 +64,7 @@ theorem i3_try {s s' : State} {a : Ag} (h1 : I1 s) (h2 : I2 s) (hi : I3 s) (h : 
   have hTk : s.taker = none ∨ ∃ b, s.taker = some b := by cases s.taker <;> simp
   have hWr : s.writer = none ∨ ∃ j, s.writer = some j := by cases s.writer <;> simp
   have hMv : s.mover = none ∨ ∃ j, s.mover = some j := by cases s.mover <;> simp
-  obtain ⟨kSend, bodyK, freshM, freshP, freshG, goneM, finR, finS, finU, freedR, freedS, freedF, ciCl, rSide, rdropCl, recvOpen, dcST⟩ := h1
+  obtain ⟨kSend, bodyK, freshM, freshP, freshG, goneM, finR, finS, finU, freedR, freedS, freedF, ciCl, rdropCl, recvOpen, dcST⟩ := h1
   obtain ⟨wrS, wrU, stW⟩ := h2
   obtain ⟨tkS, tkU, tkSt, tkSl, dead1, dead2, dead3, slotS, slotU, swapSl, casSent, freedSl⟩ := hi
   os_split h [stepTry]
@@ -75,7 +75,7 @@ theorem i3_try2 {s s' : State} {a : Ag} (h1 : I1 s) (h2 : I2 s) (hi : I3 s) (h :
   have hTk : s.taker = none ∨ ∃ b, s.taker = some b := by cases s.taker <;> simp
   have hWr : s.writer = none ∨ ∃ j, s.writer = some j := by cases s.writer <;> simp
   have hMv : s.mover = none ∨ ∃ j, s.mover = some j := by cases s.mover <;> simp
-  obtain ⟨kSend, bodyK, freshM, freshP, freshG, goneM, finR, finS, finU, freedR, freedS, freedF, ciCl, rSide, rdropCl, recvOpen, dcST⟩ := h1
+  obtain ⟨kSend, bodyK, freshM, freshP, freshG, goneM, finR, finS, finU, freedR, freedS, freedF, ciCl, rdropCl, recvOpen, dcST⟩ := h1
   obtain ⟨wrS, wrU, stW⟩ := h2
   obtain ⟨tkS, tkU, tkSt, tkSl, dead1, dead2, dead3, slotS, slotU, swapSl, casSent, freedSl⟩ := hi
   os_split h [stepTry2]
@@ -86,7 +86,7 @@ theorem i3_poll {s s' : State} {a : Ag} (h1 : I1 s) (h2 : I2 s) (hi : I3 s) (h :
   have hTk : s.taker = none ∨ ∃ b, s.taker = some b := by cases s.taker <;> simp
   have hWr : s.writer = none ∨ ∃ j, s.writer = some j := by cases s.writer <;> simp
   have hMv : s.mover = none ∨ ∃ j, s.mover = some j := by cases s.mover <;> simp
-  obtain ⟨kSend, bodyK, freshM, freshP, freshG, goneM, finR, finS, finU, freedR, freedS, freedF, ciCl, rSide, rdropCl, recvOpen, dcST⟩ := h1
+  obtain ⟨kSend, bodyK, freshM, freshP, freshG, goneM, finR, finS, finU, freedR, freedS, freedF, ciCl, rdropCl, recvOpen, dcST⟩ := h1
   obtain ⟨wrS, wrU, stW⟩ := h2
   obtain ⟨tkS, tkU, tkSt, tkSl, dead1, dead2, dead3, slotS, slotU, swapSl, casSent, freedSl⟩ := hi
   os_split h [stepPoll]
@@ -97,7 +97,7 @@ theorem i3_call {s s' : State} {a : Ag} (h1 : I1 s) (h2 : I2 s) (hi : I3 s) (h :
   have hTk : s.taker = none ∨ ∃ b, s.taker = some b := by cases s.taker <;> simp
   have hWr : s.writer = none ∨ ∃ j, s.writer = some j := by cases s.writer <;> simp
   have hMv : s.mover = none ∨ ∃ j, s.mover = some j := by cases s.mover <;> simp
-  obtain ⟨kSend, bodyK, freshM, freshP, freshG, goneM, finR, finS, finU, freedR, freedS, freedF, ciCl, rSide, rdropCl, recvOpen, dcST⟩ := h1
+  obtain ⟨kSend, bodyK, freshM, freshP, freshG, goneM, finR, finS, finU, freedR, freedS, freedF, ciCl, rdropCl, recvOpen, dcST⟩ := h1
   obtain ⟨wrS, wrU, stW⟩ := h2
   obtain ⟨tkS, tkU, tkSt, tkSl, dead1, dead2, dead3, slotS, slotU, swapSl, casSent, freedSl⟩ := hi
   cases a with
@@ -113,7 +113,7 @@ theorem i3_ret {s s' : State} {a : Ag} (h1 : I1 s) (h2 : I2 s) (hi : I3 s) (h : 
   have hTk : s.taker = none ∨ ∃ b, s.taker = some b := by cases s.taker <;> simp
   have hWr : s.writer = none ∨ ∃ j, s.writer = some j := by cases s.writer <;> simp
   have hMv : s.mover = none ∨ ∃ j, s.mover = some j := by cases s.mover <;> simp
-  obtain ⟨kSend, bodyK, freshM, freshP, freshG, goneM, finR, finS, finU, freedR, freedS, freedF, ciCl, rSide, rdropCl, recvOpen, dcST⟩ := h1
+  obtain ⟨kSend, bodyK, freshM, freshP, freshG, goneM, finR, finS, finU, freedR, freedS, freedF, ciCl, rdropCl, recvOpen, dcST⟩ := h1
   obtain ⟨wrS, wrU, stW⟩ := h2
   obtain ⟨tkS, tkU, tkSt, tkSl, dead1, dead2, dead3, slotS, slotU, swapSl, casSent, freedSl⟩ := hi
   os_split h [stepRet]
@@ -124,7 +124,7 @@ theorem i3_spur {s s' : State} {a : Ag} (h1 : I1 s) (h2 : I2 s) (hi : I3 s) (h :
   have hTk : s.taker = none ∨ ∃ b, s.taker = some b := by cases s.taker <;> simp
   have hWr : s.writer = none ∨ ∃ j, s.writer = some j := by cases s.writer <;> simp
   have hMv : s.mover = none ∨ ∃ j, s.mover = some j := by cases s.mover <;> simp
-  obtain ⟨kSend, bodyK, freshM, freshP, freshG, goneM, finR, finS, finU, freedR, freedS, freedF, ciCl, rSide, rdropCl, recvOpen, dcST⟩ := h1
+  obtain ⟨kSend, bodyK, freshM, freshP, freshG, goneM, finR, finS, finU, freedR, freedS, freedF, ciCl, rdropCl, recvOpen, dcST⟩ := h1
   obtain ⟨wrS, wrU, stW⟩ := h2
   obtain ⟨tkS, tkU, tkSt, tkSl, dead1, dead2, dead3, slotS, slotU, swapSl, casSent, freedSl⟩ := hi
   os_split h [stepSpurious]
